@@ -86,6 +86,7 @@ type Stats struct {
 	AltDisagree  int
 	SolverErrors int
 	Known        map[string]int
+	Fallback     int
 }
 
 type Explorer struct {
@@ -170,6 +171,7 @@ func (x *Explorer) done(e *Exec, r *PathResult) {
 	x.stats.Inconclusive += e.inconclusive
 	x.stats.AltAgree += e.altAgree
 	x.stats.AltDisagree += e.altDisagree
+	x.stats.Fallback += e.fallbackUsed
 	for _, t := range r.Reach {
 		x.stats.Reach[t]++
 	}
@@ -209,8 +211,8 @@ func (x *Explorer) done(e *Exec, r *PathResult) {
 
 func (x *Explorer) worker(id int) {
 	ts := NewTermStore()
-	var sv, alt *Solver
-	defer func() { sv.Close(); alt.Close() }()
+	var sv, alt, fb *Solver
+	defer func() { sv.Close(); alt.Close(); fb.Close() }()
 	paths := 0
 	for {
 		prefix, ok := x.next()
@@ -260,6 +262,7 @@ func (x *Explorer) worker(id int) {
 		}
 		paths++
 		e := newExec(x, ts, sv, alt, prefix)
+		e.fb = &fb
 		r := e.runPath()
 		x.done(e, r)
 	}
@@ -307,24 +310,27 @@ type Exec struct {
 		tag string
 		t   *Term
 	}
-	steps        int
-	obligations  int
-	discharged   int
-	concreteObl  int
-	inconclusive int
-	altAgree     int
-	altDisagree  int
-	known        []string
-	funcs        map[string]bool
-	stubs        map[string]bool
-	depth        int
-	callStack    []*ssa.Function
-	deferFrame   []*frame
-	pushed       bool
-	synced       int
-	curModel     Model // a model of the current path condition, or nil
-	spec         []*overlay
-	merges       int
+	steps            int
+	obligations      int
+	discharged       int
+	concreteObl      int
+	inconclusive     int
+	altAgree         int
+	altDisagree      int
+	known            []string
+	funcs            map[string]bool
+	stubs            map[string]bool
+	depth            int
+	callStack        []*ssa.Function
+	deferFrame       []*frame
+	pushed           bool
+	synced           int
+	curModel         Model // a model of the current path condition, or nil
+	spec             []*overlay
+	merges           int
+	fb               **Solver
+	fallbackUsed     int
+	useFallbackModel bool
 
 	// environment model
 	clockSec  *Term
@@ -739,8 +745,19 @@ func (e *Exec) obligation(c *Term, msg string) {
 		return
 	}
 	if r == Unknown {
-		e.inconclusive++
-		panic(pathEnd{"inconclusive", "obligation: " + msg})
+		// portfolio: arithmetic-heavy obligations (multiplication / division by constants on 64-bit
+		// clocks) are decided by cvc5 with the bit-vector-as-integer translation
+		r = e.fallbackCheck(neg)
+		if r == Unsat {
+			e.discharged++
+			e.fallbackUsed++
+			return
+		}
+		if r == Unknown {
+			e.inconclusive++
+			panic(pathEnd{"inconclusive", "obligation: " + msg})
+		}
+		e.useFallbackModel = true
 	}
 	// sat: known finding?
 	for _, k := range e.x.cfg.Known {
@@ -767,16 +784,79 @@ func (e *Exec) obligation(c *Term, msg string) {
 			return
 		}
 	}
-	e.sv.Push()
-	e.sv.Assert(neg)
 	var m map[string]uint64
-	if e.sv.Check() == Sat {
-		m = e.model()
+	if e.useFallbackModel {
+		m = e.fallbackModel(neg)
+	} else {
+		e.sv.Push()
+		e.sv.Assert(neg)
+		if e.sv.Check() == Sat {
+			m = e.model()
+		}
+		e.sv.Pop()
 	}
-	e.sv.Pop()
 	res := pathEnd{"violation", msg}
 	e.extra["model"] = m
 	panic(res)
+}
+
+// fallbackCheck decides pc /\ q with cvc5 --solve-bv-as-int=sum.
+func (e *Exec) fallbackCheck(q *Term) SatResult {
+	fb := e.getFallback()
+	if fb == nil {
+		return Unknown
+	}
+	fb.Push()
+	for _, c := range e.pc {
+		fb.Assert(c)
+	}
+	fb.Assert(q)
+	r := fb.Check()
+	fb.Pop()
+	return r
+}
+
+func (e *Exec) fallbackModel(q *Term) map[string]uint64 {
+	fb := e.getFallback()
+	if fb == nil {
+		return nil
+	}
+	fb.Push()
+	defer fb.Pop()
+	for _, c := range e.pc {
+		fb.Assert(c)
+	}
+	fb.Assert(q)
+	if fb.Check() != Sat {
+		return nil
+	}
+	m := map[string]uint64{}
+	var ts []*Term
+	for _, iv := range e.inputs {
+		ts = append(ts, iv.t)
+	}
+	vals, err := fb.Values(ts)
+	if err != nil {
+		return nil
+	}
+	for i, iv := range e.inputs {
+		m[iv.name] = vals[i]
+	}
+	return m
+}
+
+func (e *Exec) getFallback() *Solver {
+	if e.fb == nil {
+		return nil
+	}
+	if *e.fb == nil || (*e.fb).dead {
+		sv, err := NewSolver("cvc5-int", 120000)
+		if err != nil {
+			return nil
+		}
+		*e.fb = sv
+	}
+	return *e.fb
 }
 
 func (e *Exec) secondOpinion(q *Term, want SatResult) {
